@@ -127,7 +127,9 @@ func c12Spec() *histSpec {
 		// guarded reads of L at every position around its bounds, D at present/absent keys
 		out = append(out, show(c12Str("读"), zn.Call{Name: "读", Args: []zn.Expr{c12Num(0)}}, zn.Call{Name: "读", Args: []zn.Expr{c12Num(1)}}, zn.Call{Name: "读", Args: []zn.Expr{c12Num(2)}},
 			zn.Call{Name: "读", Args: []zn.Expr{mem(L, "长度")}}, zn.Call{Name: "读", Args: []zn.Expr{zn.Bin{Op: "+", L: mem(L, "长度"), R: c12Num(1)}}}))
-		out = append(out, show(c12Str("查"), zn.Call{Name: "查", Args: []zn.Expr{c12Str("乙")}}, zn.Call{Name: "查", Args: []zn.Expr{c12Str("甲")}}, zn.Call{Name: "查", Args: []zn.Expr{c12Str("丙")}}, zn.Call{Name: "查", Args: []zn.Expr{c12Str("无")}}))
+		out = append(out, show(c12Str("查"), zn.Call{Name: "查", Args: []zn.Expr{c12Str("乙")}}, zn.Call{Name: "查", Args: []zn.Expr{c12Str("甲")}}, zn.Call{Name: "查", Args: []zn.Expr{c12Str("丙")}}, zn.Call{Name: "查", Args: []zn.Expr{c12Str("无")}},
+			// whole numbers beyond 2^63 as keys: two different ones are two keys
+			zn.Call{Name: "查", Args: []zn.Expr{zn.Num{Lit: "10000000000000000000"}}}, zn.Call{Name: "查", Args: []zn.Expr{zn.Num{Lit: "20000000000000000000"}}}))
 		return out
 	}
 	sp.Ops = func(declared []string, rf *zn.Ref, depth int) []histOp {
@@ -178,6 +180,9 @@ func c12Spec() *histSpec {
 			add("M = 以L（后增：v）", nil, es(zn.Assign{Target: zn.Var{Name: "M"}, Val: mcall(L, "后增", v)}))
 			add("L = M", nil, es(zn.Assign{Target: L, Val: zn.Var{Name: "M"}}))
 			add("以M（后增：v）", nil, es(mcall(zn.Var{Name: "M"}, "后增", v)))
+			// the position a two-name loop hands out, stored as it is while the loop goes on: every
+			// stored position stays the one it was stored as
+			add("以I、V遍历L：以M（后增：I）", nil, zn.Iter{Vars: []string{"位", "值"}, Target: L, Body: []zn.Stmt{es(mcall(zn.Var{Name: "M"}, "后增", zn.Var{Name: "位"}))}})
 		}
 		// dictionary
 		for _, k := range c12Keys {
@@ -186,6 +191,8 @@ func c12Spec() *histSpec {
 			add(fmt.Sprintf("以D（移除：“%s”）", k), nil, show(mcall(D, "移除", c12Str(k))))
 		}
 		add("D#1 = v", nil, es(zn.Assign{Target: zn.Index{Root: D, Idx: c12Num(1)}, Val: v}))
+		add("D#10000000000000000000 = v", nil, es(zn.Assign{Target: zn.Index{Root: D, Idx: zn.Num{Lit: "10000000000000000000"}}, Val: v}))
+		add("D#20000000000000000000 = v + 5", nil, es(zn.Assign{Target: zn.Index{Root: D, Idx: zn.Num{Lit: "20000000000000000000"}}, Val: zn.Bin{Op: "+", L: v, R: c12Num(5)}}))
 		if !has("E") {
 			add("令E = D", []string{"E"}, decl("E", D))
 		} else {
@@ -204,7 +211,7 @@ func init() {
 	mc.Register(&mc.Check{
 		ID:    "C12",
 		Level: "model_checking",
-		Rule: "E2: breadth-first search over operation histories on a list L and a dictionary D (plus one copy of each) from 3 initial states (non-empty, empty, literal with duplicate keys); list operations: guarded write at positions {0,1,2,len,len+1}, 前增 后增 左移 右移 交换 (in and out of range) 合并 (also with the receiver itself among the arguments), setters 首项 末项, copies; dictionary operations over keys 乙 甲 丙 (deliberately unsorted): #k write, 写入 移除 读取, numeric key, copies; values cycle through 0..2 so the space closes under the history bound. Every history of >= 3 operations is also run with the battery only at its end (an observation may itself refresh hidden state). After EVERY operation the full observation battery runs on the real interpreter (fresh run of the whole history) and the reference (slice / key list + map): structural value, display text, length, 首项 末项 逆序 逆序∘逆序 包含, guarded reads at 0,1,2,len,len+1 (out of range => error and unchanged), iteration order with indices, 所有索引 所有值, keyed reads of present and absent keys, generated JSON (of the dictionary itself and of it as an item of a list, of a list in a list and under a key).",
+		Rule: "E2: breadth-first search over operation histories on a list L and a dictionary D (plus one copy of each) from 3 initial states (non-empty, empty, literal with duplicate keys); list operations: guarded write at positions {0,1,2,len,len+1}, 前增 后增 左移 右移 交换 (in and out of range) 合并 (also with the receiver itself among the arguments), setters 首项 末项, copies; dictionary operations over keys 乙 甲 丙 (deliberately unsorted): #k write, 写入 移除 读取, numeric key, two whole-number keys beyond 2^63, copies; a two-name loop over L that appends its position variable to the copy M; values cycle through 0..2 so the space closes under the history bound. Every history of >= 3 operations is also run with the battery only at its end (an observation may itself refresh hidden state). After EVERY operation the full observation battery runs on the real interpreter (fresh run of the whole history) and the reference (slice / key list + map): structural value, display text, length, 首项 末项 逆序 逆序∘逆序 包含, guarded reads at 0,1,2,len,len+1 (out of range => error and unchanged), iteration order with indices, 所有索引 所有值, keyed reads of present and absent keys, generated JSON (of the dictionary itself and of it as an item of a list, of a list in a list and under a key).",
 		Assumptions: []string{
 			"fractional indices and the numeric convention of 寻找 / 新增 are not asserted (statement leaves them open)",
 			"JSON text of the reference uses Go's shortest float formatting and member order = stored key order",
